@@ -21,6 +21,7 @@ PERSISTENT = {
     "current_scope": "balanced push/pop in with_scope (checked by C07 R7.4)",
     "current_scope_nx": "saved/restored in with_scope (checked by C07 R7.4)",
     "pass_idx": "the pass counter itself",
+    "import_stack": "balanced push/pop around an import's emission (the pop is not skipped by an error: checked by C06 R6.9)",
 }
 
 
@@ -354,9 +355,13 @@ def r24(ctx, fx):
         ctx.fail_closed(rid, "CodegenContext::emit not found")
     else:
         good = False
+        sm_add = fx.fn("mos_core::codegen::source_map::SourceMap::add")
+        i_pc = lib.param_index(sm_add, "ProgramCounter") if sm_add else None
+        if i_pc is None:
+            ctx.fail_closed(rid, "SourceMap::add(…, pc: ProgramCounter, …) not found")
         for x, p in lib.hir_calls(em.hir["body"], "SourceMap::add"):
             a = lib.hargs(x)
-            if any((pp or "").endswith("Segment::target_pc") for _, pp in lib.hir_calls(a[3])):
+            if i_pc is not None and any((pp or "").endswith("Segment::target_pc") for _, pp in lib.hir_calls(a[i_pc])):
                 good = True
         if not good:
             ctx.finding(rid, CC + "::emit|source-map-space", "source map entries are not recorded at the segment's target pc", em.where)
